@@ -58,6 +58,18 @@ impl AnyCase {
         }
     }
 
+    /// Bytes of text the case makes the library look at (a cost proxy for the
+    /// minimiser's work budget).
+    pub fn weight(&self) -> u64 {
+        (match self {
+            AnyCase::Stream(c) => c.input.len(),
+            AnyCase::Trunc(c) => c.text.len(),
+            AnyCase::Receiver(c) => c.text.len(),
+            AnyCase::Sink(_) => 256,
+            AnyCase::Hist(c) => c.input().len(),
+        }) as u64
+    }
+
     pub fn engine_name(&self) -> &'static str {
         match self {
             AnyCase::Stream(_) => "E-STREAM",
